@@ -84,16 +84,20 @@ def record(run, tier, rng):
 def exact_float(run, tier, nprng):
     """Fractional coefficients: bitwise equality with the documented float64 recurrence, cast back."""
     for dt in DT.values():
-        for n in (0, 1, 2, 3, 5, 6, 1000):
-            for coeff in (0.97, 0.5, -0.3, 1.0 / 3.0):
+        # (lengths around 2^16 and 2^17 too: the recurrence has no block structure)
+        for n in (0, 1, 2, 3, 5, 6, 1000, 65537, 65538, 131075, 200003):
+            for coeff in (0.97, 0.5, -0.3, 1.0 / 3.0) if n <= 1000 else (0.97,):
                 if np.issubdtype(dt, np.integer):
                     x = nprng.randint(-3000, 3000, size=n).astype(dt)
                 else:
                     x = (nprng.randn(n) * 100).astype(dt)
                 x64 = x.astype(np.float64)
                 want64 = x64.copy()
-                for i in range(1, n):
-                    want64[i] = x64[i] - coeff * x64[i - 1]
+                if n <= 1000:
+                    for i in range(1, n):
+                        want64[i] = x64[i] - coeff * x64[i - 1]
+                else:
+                    want64[1:] = x64[1:] - coeff * x64[:-1]  # (two IEEE operations per sample, as in the loop above)
                 with warnings.catch_warnings():
                     warnings.simplefilter("ignore")
                     want = want64.astype(dt)
@@ -161,22 +165,26 @@ def torch_forms(run, tier, nprng):
     import torch
     from pydrobert.speech import torch as pt
     import c14
-    for n in (0, 1, 2, 3, 6, 1000):
-        for coeff in (0.97, 0.5, 0.0, -0.3):
-            for dt in (np.float32, np.float64):
+    for n in (0, 1, 2, 3, 6, 1000, 65538, 131075):
+        for coeff in (0.97, 0.5, 0.0, -0.3) if n <= 1000 else (0.97,):
+            for dt in (np.float32, np.float64, np.float16):
                 x = (nprng.randn(n) * 10).astype(dt)
                 want = x.astype(np.float64).copy()
-                for i in range(1, n):
-                    want[i] = float(x[i]) - coeff * float(x[i - 1])
+                want[1:] = x.astype(np.float64)[1:] - coeff * x.astype(np.float64)[:-1]
                 for form in ("module", "functional"):
                     t = torch.tensor(x)
                     try:
                         got = (pt.PyTorchPreemphasize(coeff)(t) if form == "module" else pt.pytorch_preemphasize(t, coeff)).numpy()
+                        ref = pre.Preemphasize(coeff).apply(x)
                     except Exception as e:
                         run.violation({"kind": "torch_preemphasize_raised", "n": n, "coeff": coeff, "dtype": str(np.dtype(dt)), "form": form, "error": repr(e)})
                         continue
                     run.evaluations += 1
-                    tol = 1e-12 if dt == np.float64 else 1e-5
+                    tol = 1e-12 if dt == np.float64 else 1e-5 if dt == np.float32 else 4e-3
+                    if got.dtype != ref.dtype:
+                        # the same dtype as Preemphasize.apply gives: the input's
+                        run.violation({"kind": "torch_preemphasize_dtype_differs_from_numpy", "n": n, "coeff": coeff, "dtype": str(np.dtype(dt)),
+                                       "form": form, "torch": str(got.dtype), "numpy": str(ref.dtype)})
                     if got.shape != want.shape or not np.allclose(got, want, rtol=tol, atol=tol * 10):
                         run.violation({"kind": "torch_preemphasize_not_recurrence", "n": n, "coeff": coeff, "dtype": str(np.dtype(dt)), "form": form})
                     if not np.array_equal(t.numpy(), x):
